@@ -229,6 +229,19 @@ func setOrErr(l []string, err error) string {
 	return sortedJoin(l)
 }
 
+// setOrErrZ: like setOrErr; in addition, when one of the given zoom ARGUMENTS is outside lo..hi the documentation promises an
+// EMPTY list together with the error (C15): a non-empty one is reported
+func setOrErrZ(l []string, err error, lo, hi int64, zooms ...int64) string {
+	if err != nil && len(l) > 0 {
+		for _, z := range zooms {
+			if z < lo || z > hi {
+				return "ERR-NONEMPTY-ON-ZOOM-ERROR"
+			}
+		}
+	}
+	return setOrErr(l, err)
+}
+
 func seqOrErr(l []string, err error) string {
 	if err != nil {
 		return "ERR"
